@@ -12,3 +12,9 @@ pub assume_specification<T, P: FnOnce(&T) -> bool>[ Option::<T>::filter ](o: Opt
 // `impl<T: Clone> ToOwned for T`: to_owned() is clone()
 pub assume_specification<T: Clone>[ <T as std::borrow::ToOwned>::to_owned ](t: &T) -> (r: T)
     ensures call_ensures(T::clone, (t,), r);
+pub assume_specification<T, F: FnOnce() -> T>[ Option::<T>::get_or_insert_with ](o: &mut Option<T>, f: F) -> (r: &mut T)
+    requires *old(o) is None ==> f.requires(()),
+    ensures
+        *old(o) is Some ==> *r == (*old(o))->Some_0,
+        *old(o) is None ==> f.ensures((), *r),
+        *final(o) == Some(*final(r));
